@@ -186,6 +186,34 @@ def const_arith(ctx, l, depth=0):
     return None
 
 
+_CTX_CACHE = {}
+
+
+def callers_guarantee(prog, f, key, need):
+    """Interprocedural discharge for a PRIVATE helper: the place is a parameter of f (no projection) and at every call
+    site in the crate the corresponding argument is known to hold at least `need` elements.  Returns a how-string or None."""
+    if key is None or f.kind == "Closure":
+        return None
+    l, path = key
+    if path or not (1 <= l <= f.argc) or (f.vis or "") == "Public":
+        return None
+    sites = prog.call_sites(lambda c: c == f.path)
+    if not sites:
+        return None
+    for g, cbb, ct in sites:
+        if g.path == f.path:
+            return None
+        if l - 1 >= len(ct["args"]):
+            return None
+        if g.path not in _CTX_CACHE:
+            _CTX_CACHE[g.path] = FnCtx(g)
+        gctx = _CTX_CACHE[g.path]
+        akey = gctx.ld.key_of_operand(ct["args"][l - 1])
+        if akey is None or gctx.ld.min_len_at_term(cbb, akey) < need:
+            return None
+    return "length: every caller (%d) passes an argument known to hold at least %d element(s)" % (len(sites), need)
+
+
 def len_minus_const(ctx, l, depth=0):
     """If local l is `len(K) - k` (k a positive constant) return (K, k)."""
     if l is None or depth > 6:
@@ -335,8 +363,19 @@ def range_slice_discharge(ctx, f, bb, t, cont, range_local):
                     same = lambda x: x is not None and bl is not None and (x == bl or bl in fl.back_pure([x]) or x in fl.back_pure([bl]))
                     if (kb == ckey and ckey is not None and same(a)) or (ka == ckey and ckey is not None and same(b)):
                         tested.add(bl)
+    # a bound that IS the sequence's length, or its length minus a constant the sequence is known to hold
+    for o in var:
+        bl = op_local(o)
+        if bl is None or bl in tested:
+            continue
+        if ckey is not None and ctx.ld.len_source(bl) == ckey:
+            tested.add(bl)
+            continue
+        lm = len_minus_const(ctx, bl)
+        if lm and ckey is not None and lm[0] == ckey and ctx.ld.min_len_at_term(bb, ckey) >= lm[1]:
+            tested.add(bl)
     if all(op_local(o) in tested for o in var):
-        return "rangeslice: every computed bound is compared with the sequence's length on a dominating branch", ""
+        return "rangeslice: every computed bound is the sequence's length (minus a constant it is known to hold) or is compared with it on a dominating branch", ""
     return None, "no dominating comparison of the computed bound(s) with the sequence's length"
 
 
@@ -491,6 +530,8 @@ def run(tier="quick", replay=None):
                         m = ctx.ld.min_len_at_term(bb, lkey)
                         if m > k:
                             how = "length: min_len(%s)=%d > %d" % (desc, m, k)
+                        else:
+                            how = callers_guarantee(prog, f, lkey, k + 1)
                     settle(f, key, site, "bounds", how,
                            "%s indexes %s[%d] with no dominating proof that it has more than %d element(s): panics on "
                            "short input" % (f.path, desc, k, k))
@@ -550,7 +591,7 @@ def run(tier="quick", replay=None):
                     key = site_key(f, "index", "%s[%d]" % (desc, k))
                     desc = describe_place_name(f, rkey)
                     m = ctx.ld.min_len_at_term(bb, rkey) if rkey else 0
-                    how = "length: min_len(%s)=%d > %d" % (desc, m, k) if m > k else None
+                    how = "length: min_len(%s)=%d > %d" % (desc, m, k) if m > k else callers_guarantee(prog, f, rkey, k + 1)
                     settle(f, key, site, "index", how,
                            "%s indexes %s[%d] with no dominating proof that it has more than %d element(s): panics "
                            "(index out of bounds) on short input" % (f.path, desc, k, k))
